@@ -14,5 +14,5 @@ CONSTANTS
   StartStates = {"empty", "data", "ownsnap", "data+ownsnap"}
 SPECIFICATION Spec
 INVARIANTS TypeOK NoLocalLoss PublishedWhenIdle
-PROPERTIES LSNeverBackwards NoEchoUpload NoUploadBeforeOwnMerged BucketMonotone
+PROPERTIES CommittedOnlyAfterStore LSNeverBackwards NoEchoUpload NoUploadBeforeOwnMerged BucketMonotone
 CHECK_DEADLOCK FALSE
